@@ -60,6 +60,50 @@ void vp_c16_sig_element(uint32_t i, char *out) { ASSUME(i < VP_SIGLOG_CAP); DN(o
 /* ---- cuts inside QXmppIncomingClient.cpp: log text only / stream features content ---- */
 void _ZNK26QXmppIncomingClientPrivate6originEv(char *ret, char *self) { QSD(ret) = SHARED_NULL; }
 
+
+/* ---- QString helpers missing in models/qt_core.c ---- */
+/* arg(): "%N" placeholders are substituted for short patterns (the JID builders "%1@%2", "%1/%2"); longer patterns are log texts
+   and are returned unformatted (logging is outside the property, DESIGN 2.5) */
+#define C16_ARGPAT 8
+void _ZN9QtPrivate12argToQStringE11QStringViewmPPKNS_7ArgBaseE(char *ret, uint64_t psize, char *pat, uint64_t nargs, char *args) { const uint16_t *p = (const uint16_t*)pat;
+  if (psize > C16_ARGPAT) { QSD(ret) = qs_from(p, (uint32_t)psize); return; }
+  uint32_t total = 0; for (uint32_t a = 0; a < 2; a++) { if (a >= nargs) break; char *ab = ((char**)args)[a]; const uint16_t *ad = *(const uint16_t**)(ab + 16); uint64_t an = *(uint64_t*)(ab + 8); total += hint16(ad, an); }
+  ASSERT(nargs <= 2, "QString::arg model: at most two arguments"); QAD *d = qs_new(0, total + C16_ARGPAT); uint32_t j = 0;
+  for (uint32_t i = 0; i < C16_ARGPAT; i++) { if (i >= psize) break;
+    if (p[i] == '%' && i + 1 < psize && p[i + 1] >= '1' && p[i + 1] <= '9' && (uint64_t)(p[i + 1] - '1') < nargs) { char *ab = ((char**)args)[p[i + 1] - '1']; uint64_t an = *(uint64_t*)(ab + 8); const uint16_t *ad = *(const uint16_t**)(ab + 16);
+      ASSERT(!num16(ad, an).isnum, "QString::arg model: abstract number argument"); ASSERT(j + an <= QS_CAP, "QString capacity of the model exceeded (arg)");
+      for (uint32_t k = 0; k < H16(ad, an); k++) { if (k >= an) break; C16_SD(d)[j + k] = ad[k]; } j += (uint32_t)an; i++; }
+    else { ASSERT(j < QS_CAP, "QString capacity of the model exceeded (arg)"); C16_SD(d)[j++] = p[i]; } }
+  d->f1 = j; QSD(ret) = d; }
+void _ZNK7QString3argERKS_i5QChar(char *ret, char *self, char *a, uint32_t w, uint16_t fill) { QSD(ret) = qad_ref(QSD(self)); }
+void _ZNK7QString3argExii5QChar(char *ret, char *self, uint64_t a, uint32_t w, uint32_t base, uint16_t fill) { QSD(ret) = qad_ref(QSD(self)); }
+static uint8_t c16_isspace(uint16_t c) { return c == ' ' || (c >= 9 && c <= 13) || c == 0x85 || c == 0xA0 || c == 0x1680 || (c >= 0x2000 && c <= 0x200A) || c == 0x2028 || c == 0x2029 || c == 0x202F || c == 0x205F || c == 0x3000; }
+static uint32_t vpl_c16_trim_b(QAD *a) { uint32_t b = 0; for (uint32_t i = 0; i < QHINT16(a); i++) { if (i >= a->f1) break; if (b == i && c16_isspace(QCH16(a)[i])) b = i + 1; } return b; }
+static uint32_t vpl_c16_trim_e(QAD *a, uint32_t b) { uint32_t n = a->f1, e = n; for (uint32_t i = 0; i < QHINT16(a); i++) { if (i >= n) break; uint32_t k = n - 1 - i; if (e == k + 1 && k >= b && c16_isspace(QCH16(a)[k])) e = k; } return e; }
+void _ZN7QString14trimmed_helperERS_(char *ret, char *self) { QAD *a = QSD(self); ASSERT(!numS(a).isnum, "trimmed() of an abstract number string"); uint32_t b = vpl_c16_trim_b(a), e = vpl_c16_trim_e(a, b);
+  if (b == 0 && e == a->f1) { QSD(ret) = qad_ref(a); return; } uint32_t l = e > b ? e - b : 0; QAD *d = qs_new(l, qs_hint(a)); vpl_copy16(d, 0, qs_chars(a) + b, l, qs_hint(a)); qs_seal(d, 0); QSD(ret) = d; }
+void _ZNK7QString14trimmed_helperERKS_(char *ret, char *self) { _ZN7QString14trimmed_helperERS_(ret, self); }
+
+/* ---- dynamic property "__sasl_raw" of the password reply: QVariant holding a QByteArray; one property per object ---- */
+struct c16_var { QAD *ba; uint32_t type; uint32_t pad; };
+void _ZN8QVariantC1ERK10QByteArray(char *self, char *ba) { struct c16_var *v = (struct c16_var*)self; v->ba = qad_ref(QSD(ba)); v->type = 12; v->pad = 0; }
+void _ZN8QVariantD1Ev(char *self) { }
+void _ZNK8QVariant11toByteArrayEv(char *ret, char *self) { struct c16_var *v = (struct c16_var*)self; QSD(ret) = v->type == 12 ? qad_ref(v->ba) : qb_new(0, 0); }
+#define C16_NPROP 3
+static char *c16_prop_obj[C16_NPROP]; static QAD *c16_prop_val[C16_NPROP]; static uint32_t c16_nprop;
+uint8_t _ZN7QObject11setPropertyEPKcRK8QVariant(char *self, char *name, char *var) { ASSERT(c16_nprop < C16_NPROP, "C16 env: property table full"); ASSUME(c16_nprop < C16_NPROP); struct c16_var *v = (struct c16_var*)var;
+  ASSERT(v->type == 12 && name[0] == '_' && name[2] == 's', "C16 env: only the byte-array property __sasl_raw is modelled"); c16_prop_obj[c16_nprop] = self; c16_prop_val[c16_nprop] = v->ba; c16_nprop++; return 0; }
+void _ZNK7QObject8propertyEPKc(char *ret, char *self, char *name) { struct c16_var *v = (struct c16_var*)ret; v->ba = SHARED_NULL; v->type = 0; v->pad = 0;
+  for (uint32_t i = 0; i < C16_NPROP; i++) { if (i >= c16_nprop) break; if (c16_prop_obj[i] == self) { v->ba = c16_prop_val[i]; v->type = 12; } } }
+
+
+/* ---- random identifiers: arbitrary non-empty strings (<= 2 units); randomness / uniqueness is outside the property ---- */
+void _ZN10QXmppUtils18generateStanzaHashEi(char *ret, uint32_t len) { sym16(ret, 1, 2); }
+void _ZN10QXmppUtils18generateStanzaUuidEv(char *ret) { sym16(ret, 1, 2); }
+/* x == a ++ [ch] ++ b  (harness oracle helper; avoids QStringBuilder/memcpy in the harness) */
+uint8_t vp_c16_concat_eq(char *x, char *a, uint16_t ch, char *b) { QAD *X = QSD(x), *A = QSD(a), *B = QSD(b); uint32_t la = A->f1, lb = B->f1; if (X->f1 != la + 1 + lb) return 0; uint8_t ok = 1;
+  for (uint32_t i = 0; i < QHINT16(X); i++) { if (i >= X->f1) break; uint16_t c = QCH16(X)[i]; uint16_t e = i < la ? QCH16(A)[i] : i == la ? ch : QCH16(B)[i - la - 1]; if (c != e) ok = 0; } return ok; }
+
 /* ---- constant tables: a FRESH block per call whose content is selected by a (possibly symbolic) index ---- */
 #define C16_NAMELEN 36
 #define C16_NTAB 6
